@@ -92,6 +92,20 @@ fn main() {
         inputs.push(("mutated".into(), mutate(&mut rng, b)));
     }
 
+    // 6. snapshot blocks (proto_snapshot_block_to_token_block): the same generator, tables dropped,
+    //    with and without an external key, every declared version
+    let mut snaps: Vec<SvCase> = vec![];
+    {
+        let keys = key_pool(&mut rng);
+        let mut g = CGen { rng: rng.fork(), risk: 0, v33: false, keys };
+        for j in 0..(n_gen / 3) {
+            g.risk = [0u64, 0, 2, 8][j % 4];
+            let level = ((j / 4) % 4) as u32;
+            let b = g.block(level);
+            let sb = snapshot_of(&mut g, &b);
+            snaps.push(sv_case(&format!("snap level={} risk={}", level, g.risk), sb));
+        }
+    }
     let mut cases: Vec<CvCase> = vec![];
     for (j, (kind, b)) in inputs.into_iter().enumerate() {
         let ext = j % 3 == 2;
@@ -130,15 +144,37 @@ fn main() {
     let kernel_n = arg_u64("--kernel-n", if thorough { 640 } else { 64 }) as usize;
     let sample = verif_harness::wire::kernel_sample(&terms, &lines, kernel_n, 60_000, 4_000_000, shards);
     let kfiles = write_cases(&out, "CVk", "convert", "Model.ConvertCases", "cvcase", "cv_failures", &sample, sample.len(), shards).expect("write kernel cases");
+    // snapshot stream: its own files (checker sv_failures)
+    let sterms: Vec<G> = snaps.iter().map(g_svcase).collect();
+    let slines: Vec<String> = sterms.iter().map(|g| g.gallina()).collect();
+    let sfiles = write_cases(&out, "SV", "convert", "Model.ConvertCases", "svcase", "sv_failures", &sterms, 0, shards).expect("write snapshot cases");
+    let ssample = verif_harness::wire::kernel_sample(&sterms, &slines, kernel_n / 2, 60_000, 2_000_000, shards);
+    let skfiles = write_cases(&out, "SVk", "convert", "Model.ConvertCases", "svcase", "sv_failures", &ssample, ssample.len(), shards).expect("write snapshot kernel cases");
+    let _ = std::fs::write(format!("{}/SV_cases.txt", out), slines.join("\n"));
+    let mut shist: BTreeMap<String, u64> = BTreeMap::new();
+    let mut spanics = vec![];
+    for (i, cs) in snaps.iter().enumerate() {
+        let o = match &cs.outcome {
+            None => {
+                spanics.push(i);
+                "panic".to_string()
+            }
+            Some(Err(e)) => e.to_string(),
+            Some(Ok(_)) => format!("converted{}", if cs.snap.external_key.is_some() { " third-party" } else { "" }),
+        };
+        *shist.entry(o).or_default() += 1;
+    }
+    let _ = std::fs::write(format!("{}/SV_info.txt", out), snaps.iter().map(|c| format!("{} {:?}", c.kind, c.snap)).collect::<Vec<_>>().join("\n"));
     let _ = std::fs::write(format!("{}/CV_cases.txt", out), lines.join("\n"));
     let _ = std::fs::write(
         format!("{}/CV_info.txt", out),
         cases.iter().map(|c| format!("{} ext={} outcome={} bytes={}", c.kind, c.ext, match &c.outcome { CvImpl::NoDecode => "undecodable".to_string(), CvImpl::Err(e) => e.to_string(), CvImpl::Ok(..) => "converted".into(), CvImpl::Panic => "PANIC".into() }, hex::encode(&c.bytes))).collect::<Vec<_>>().join("\n"),
     );
     let hist_s: Vec<String> = hist.iter().map(|(k, v)| format!("{}: {}", jstr(k), v)).collect();
-    let files_s: Vec<String> = files.iter().chain(kfiles.iter()).map(|p| jstr(p)).collect();
+    let files_s: Vec<String> = files.iter().chain(kfiles.iter()).chain(sfiles.iter()).chain(skfiles.iter()).map(|p| jstr(p)).collect();
+    let shist_s: Vec<String> = shist.iter().map(|(k, v)| format!("{}: {}", jstr(k), v)).collect();
     println!(
-        "{{\"family\": \"convert\", \"evaluations\": {}, \"generated_blocks\": {}, \"sample_blocks\": {}, \"library_built_blocks\": {}, \"reversioned\": {}, \"wild_structures\": {}, \"raw_trees\": {}, \"converted\": {}, \"distinct_nontrivial\": {}, \"outcome_histogram\": {{{}}}, \"panics\": {:?}, \"kernel_sample\": {}, \"files\": [{}]}}",
+        "{{\"family\": \"convert\", \"evaluations\": {}, \"generated_blocks\": {}, \"sample_blocks\": {}, \"library_built_blocks\": {}, \"reversioned\": {}, \"wild_structures\": {}, \"raw_trees\": {}, \"converted\": {}, \"distinct_nontrivial\": {}, \"outcome_histogram\": {{{}}}, \"panics\": {:?}, \"kernel_sample\": {}, \"snapshot_blocks\": {}, \"snapshot_outcome_histogram\": {{{}}}, \"snapshot_panics\": {:?}, \"snapshot_kernel_sample\": {}, \"files\": [{}]}}",
         cases.len(),
         n_gen,
         n_samples,
@@ -151,6 +187,10 @@ fn main() {
         hist_s.join(", "),
         &panics[..panics.len().min(50)],
         sample.len(),
+        snaps.len(),
+        shist_s.join(", "),
+        &spanics[..spanics.len().min(50)],
+        ssample.len(),
         files_s.join(", ")
     );
 }
